@@ -390,6 +390,8 @@ class SxFloat(float, metaclass=_SxFloatMeta):
 
 
 def sx_isinstance(obj, classinfo):
+    if hasattr(obj, "__sx_isinstance__"):
+        return obj.__sx_isinstance__(classinfo)
     if isinstance(obj, SymReal):
         cs = classinfo if isinstance(classinfo, tuple) else (classinfo,)
         for c in cs:
@@ -407,6 +409,8 @@ class _SxIntMeta(type):
         if cls is SxInt:
             if len(args) == 1 and not kw:
                 a = args[0]
+                if hasattr(a, "__sx_int__"):
+                    return a.__sx_int__()
                 if isinstance(a, SymReal):
                     # enumerate the integral value (used by int(ceil(..)) only)
                     ctx = C.cur()
@@ -434,3 +438,29 @@ class _SxIntMeta(type):
 
 class SxInt(int, metaclass=_SxIntMeta):
     """Stands in for `int` inside the loaded picosvg modules."""
+
+
+# --- replacement for the `str` builtin (only where a harness asks: C10 printing) ----
+class _SxStrMeta(type):
+    def __call__(cls, *args, **kw):
+        if cls is SxStr:
+            if len(args) == 1 and not kw and hasattr(args[0], "__sx_str__"):
+                return args[0].__sx_str__()
+            return str(*args, **kw)
+        return super().__call__(*args, **kw)
+
+    def __instancecheck__(cls, obj):
+        if cls is SxStr:
+            return isinstance(obj, (str, SymStrBase))
+        return type.__instancecheck__(cls, obj)
+
+
+class SxStr(str, metaclass=_SxStrMeta):
+    """Stands in for `str` inside modules loaded with extra_builtins={'str': SxStr, 'repr': sx_repr}:
+    str(x) of an object with __sx_str__ yields its symbolic string."""
+
+
+def sx_repr(x):
+    if hasattr(x, "__sx_str__"):
+        return x.__sx_str__()
+    return repr(x)
